@@ -13,13 +13,15 @@ import subprocess
 import sys
 import tempfile
 
-from .. import envs, observe, rt
+from .. import envs, observe, rt, findings
 from . import c10
 
 ID = "C16"
 LEVEL = "exploration"
 TECHNIQUE = "runtime monitor at the process boundary: real `python -m oneliner` subprocesses with an in-process audit hook logging open() events; differential against the library call"
-RULE = ("programs (ASCII, non-ASCII, empty, no trailing newline, CRLF, BOM-free UTF-8, tabs) x all 8 option combinations "
+RULE = ("programs (ASCII, non-ASCII, empty, no trailing newline, CRLF / CR-only / mixed newlines, BOM, tabs, form feeds and every "
+        "str.splitlines() separator raw inside literals, continuation lines, interrupt-heavy control flow, classes, scopes, "
+        "imports, 8-40 generated programs) x all 8 option combinations "
         "spelled `-Ck=v` / `-C k=v` / repeated (last wins) / deprecated --unparser alone and combined with -C x {-o, "
         "--output, stdout} x output {absent, pre-existing with sentinel}; error matrix: unknown names (foo, __doc__, "
         "config_names, __class__, empty), malformed (`foo`, `a=b=c`, `=`, `unparser`), illegal values for each option, "
@@ -43,7 +45,45 @@ PROGRAMS = {
     "for-break": "for i in range(5):\n    if i == 2:\n        break\nprint(i)\n",
     "fstring-quotes": "d = {'k': 'v\"'}\nprint(f\"{d['k']!r:>8}\")\n",
     "closure": "def f(a, b, c):\n    def g():\n        return a + b + c\n    return g()\nprint(f(1, 2, 3))\n",
+    # characters that str.splitlines() treats as line ends but Python's tokenizer does not: raw inside literals / as blank
+    "line-separator-chars-in-triple-quoted": "s = '''a\x0cb\x0bc\x1cd\x1de\x1ef\x85g\u2028h\u2029i\nj'''\nprint(ascii(s), len(s))\n",
+    "line-separator-chars-in-one-line-literals": "a = 'p\x0cq'\nb = \"r\x0bs\x1ct\"\nc = 'u\x85v\u2028w\u2029x'\nd = f'{a}\x1d{b!r}\x1e'\nprint(ascii(a + b + c + d))\n",
+    "formfeed-as-whitespace": "x = 1\n\x0c\nif x:\x0c\n    print('ff', x)\x0c\n# comment \u2028 with separator\nprint('end')\n",
+    "cr-only-newlines": "a = 2\rif a:\r    print('cr', a)\r",
+    "mixed-newlines-in-literal": "s = '''l1\r\nl2\rl3\nl4'''\r\nprint(ascii(s))\n",
+    "trailing-blank-and-comment": "print('a')\n\n\n# trailing comment without newline",
+    "backslash-continuation": "x = 1 + \\\n    2\ns = 'a\\\nb'\nprint(x, s)\n",
+    "only-comment": "# nothing here\n",
+    "bom": "\ufeffprint('bom')\n",
+    # every interrupt in a branch that has a statement before it, with code after the branch
+    "jump-after-statement-in-branch": (
+        "def f(n):\n    out = []\n    for i in range(n):\n        if i == 1:\n            out.append('c')\n            continue\n"
+        "        if i == 3:\n            out.append('b')\n            break\n        out.append(i)\n    else:\n        out.append('else')\n"
+        "    if n > 4:\n        out.append('early')\n        return out\n    out.append('late')\n    return out\nprint(f(3), f(6))\n"
+        "k = 0\nwhile k < 5:\n    k += 1\n    if k == 2:\n        print('skip', k)\n        continue\n    elif k == 4:\n        print('stop', k)\n        break\n    print('body', k)\nprint(k)\n"),
+    "class-props-super": (
+        "class A:\n    n = 2\n    def __init__(self, v):\n        self.v = v\n    @property\n    def d(self):\n        return self.v * self.n\n"
+        "    @staticmethod\n    def s(x):\n        return x + 1\n    @classmethod\n    def c(cls):\n        return cls.n\n"
+        "class B(A):\n    n = 3\n    def __init__(self, v):\n        super().__init__(v + 1)\n    def d2(self):\n        return [self.d + i for i in range(2)]\n"
+        "b = B(1)\nprint(b.d, b.d2(), B.s(1), B.c(), A.c())\n"),
+    "scopes": (
+        "g = 1\ndef outer():\n    x = 0\n    def inc():\n        nonlocal x\n        global g\n        x += 1\n        g += x\n        return x\n"
+        "    return [inc() for _ in range(3)], x\nprint(outer(), g)\nt = [(a, b) for a in range(3) if a for b in range(a)]\n"
+        "(p, *q), r = [1, 2, 3], 4\nd = {}\nd['k'] = d.get('k', 0) + (w := 5)\nprint(t, p, q, r, d, w)\n"),
+    "imports": "import os.path, json as j\nfrom collections import OrderedDict as OD, deque\nprint(os.path.basename('a/b'), j.dumps(OD(a=1)), deque([1]).pop())\n",
 }
+# a few generated programs (same seeded generator as C01), chosen deterministically
+def _generated(n=8):
+    from ..gen import progs as _progs
+    out = {}
+    i = 0
+    while len(out) < n and i < 200:
+        i += 1
+        src, feats = _progs.generate(424200 + i)
+        # clean pool only: behaviour of programs that trigger a recorded finding is C01's business
+        if len(src) < 2500 and "print(" in src and not any(findings.triggered("C01", src=src, cfg=c) for c in envs.CFGS):
+            out["gen:%d" % (424200 + i)] = src
+    return out
 SENTINEL = b"SENTINEL-DO-NOT-TOUCH\n"
 
 
@@ -214,7 +254,7 @@ def check_error(rec, ename, eargs, outmode, preexisting, workdir):
 
 def all_cases(tier, seed):
     rng = random.Random(seed + 5)
-    progs = list(PROGRAMS.items())
+    progs = list(PROGRAMS.items()) + list(_generated(8 if tier == "quick" else 40).items())
     i = 0
     for (pname, src), cfg in itertools.product(progs, envs.CFGS):
         for spname, sparg in spellings(cfg, rng):
